@@ -573,6 +573,64 @@ Proof.
     apply assemble_of_rows. apply Forall_forall. reflexivity.
 Qed.
 
+(* ------------------------------------------------------------------ the page body is a byte string *)
+
+Notation is_bytes := LevelProofs.is_bytes.
+
+Lemma le_bytes_f_bytes k x : is_bytes (le_bytes_f k x).
+Proof. rewrite le_bytes_f_eq. exact (le_bytes_ok k x). Qed.
+
+Lemma flat_map_bytes {A} (f : A -> list N) l : (forall x, In x l -> is_bytes (f x)) -> is_bytes (flat_map f l).
+Proof.
+  induction l as [|x l IH]; intros H; [constructor|]. cbn [flat_map]. apply LevelProofs.is_bytes_app.
+  - apply H. left. reflexivity.
+  - apply IH. intros y Hy. apply H. right. exact Hy.
+Qed.
+
+Lemma bools_byte_bound : forall k l, bools_byte k l < 2 ^ N.of_nat k.
+Proof.
+  induction k as [|k IH]; intros l; [destruct l; cbn; lia|].
+  destruct l as [|v l]; [cbn [bools_byte]; apply N.neq_0_lt_0, N.pow_nonzero; discriminate|].
+  cbn [bools_byte]. rewrite Nat2N.inj_succ, N.pow_succ_r'. pose proof (IH l). pose proof (truth_bit v). lia.
+Qed.
+
+Lemma enc_bools_bytes : forall f l, is_bytes (enc_bools f l).
+Proof.
+  induction f as [|f IH]; intros l; [constructor|]. cbn [enc_bools]. destruct l as [|v l]; [constructor|].
+  constructor; [|apply IH]. pose proof (bools_byte_bound 8 (v :: l)) as B. exact B.
+Qed.
+
+Lemma plain_all_bytes c vals : forallb (value_ok c) vals = true -> is_bytes (plain_all (c_type c) vals).
+Proof.
+  intros Hv.
+  assert (Hb : forall v, In v vals -> is_bytes v).
+  { intros v Hin. rewrite forallb_forall in Hv. specialize (Hv v Hin). unfold value_ok in Hv.
+    apply andb_prop in Hv. destruct Hv as [Hb _]. exact (forallb_byte_ok v Hb). }
+  destruct (c_type c); cbn [plain_all plain_append];
+    unfold plain_encode_boolean, plain_encode_int32, plain_encode_int64, plain_encode_float, plain_encode_double,
+           enc_fixed, plain_encode_byte_array, plain_encode_flba.
+  - apply enc_bools_bytes.
+  - apply flat_map_bytes. intros. apply le_bytes_f_bytes.
+  - apply flat_map_bytes. intros. apply le_bytes_f_bytes.
+  - apply flat_map_bytes. intros. apply le_bytes_f_bytes.
+  - apply flat_map_bytes. intros. apply le_bytes_f_bytes.
+  - apply flat_map_bytes. intros v Hin. apply LevelProofs.is_bytes_app; [apply le_bytes_f_bytes|apply Hb, Hin].
+  - apply LevelProofs.is_bytes_concat. apply Forall_forall. exact Hb.
+Qed.
+
+(** what goes to the compressor is a byte string *)
+Lemma page_body_bytes c w rows : PInv c w rows -> len rows < 2 ^ 31 -> is_bytes (page_body w).
+Proof.
+  intros [Ic Id Iv In Inb Iok] Hn. unfold page_body. rewrite Iv. apply LevelProofs.is_bytes_app.
+  - destruct (len (p_defs w) =? 0); [constructor|]. rewrite Ic, Id. unfold max_def.
+    destruct (c_rep c); [constructor|]. rewrite encode_levels_1. apply LevelProofs.is_bytes_app.
+    + unfold le32. apply le_bytes_f_bytes.
+    + apply LevelProofs.encode_all_bytes; [apply levels_small|].
+      unfold levels_of. rewrite map_length. unfold len in Hn.
+      change (2 ^ 32) with 4294967296. change (2 ^ 31) with 2147483648 in Hn. unfold row in Hn. lia.
+  - apply plain_all_bytes, (dense_ok c rows Iok).
+Qed.
+
 Example page_body_roundtrip_ex :
   let c := mkcol [111] TInt32 Optional 0 in
   match add_all (pw_init c) [mkbatch [[1;0;0;0]] 2 (Some [1;0]); mkbatch [[2;0;0;0]] 2 (Some [0;1]); mkbatch [[3;0;0;0]] 1 None] with
